@@ -1534,7 +1534,7 @@ static const scen_t g_scen[] = {
     { "mt3_refpool", sc_mt3_refpool, 0, 0 }, { "mt3_refpool_stream", sc_mt3_refpool, 1, 0 },
     { "copy2_mt_dst", sc_copy_cctx2, 0, 0 }, { "copy2_l19", sc_copy_cctx2, 1, 1 }, { "copy2_twice", sc_copy_cctx2, 2, 0 },
     { "train_r3_cover_dk", sc_train2, 0, 1 }, { "train_r3_cover_dk_mt3", sc_train2, 1, 1 }, { "train_r3_fastcover_d_mt3", sc_train2, 2, 1 }, { "train_r3_cover_split1", sc_train2, 3, 1 },
-    { "randx_0", sc_rand2, 0, 0 }, { "randx_1", sc_rand2, 1, 0 }, { "randx_2", sc_rand2, 2, 0 }, { "randx_3", sc_rand2, 3, 0 }, { "randx_4", sc_rand2, 4, 0 }, { "randx_5", sc_rand2, 5, 0 },
+    { "randx_0", sc_rand2, 0, 1 }, { "randx_1", sc_rand2, 1, 1 }, { "randx_2", sc_rand2, 2, 1 }, { "randx_3", sc_rand2, 3, 1 }, { "randx_4", sc_rand2, 4, 1 }, { "randx_5", sc_rand2, 5, 1 },
     { "api_misc_compress", sc_api_misc, 0, 0 }, { "api_misc_decompress", sc_api_misc, 1, 0 },
     { "train_r3_legacy_small", sc_train2, 4, 0 }, { "train_r3_cover_tiny", sc_train2, 5, 0 }, { "train_r3_finalize_small", sc_train2, 6, 0 },
 };
